@@ -1848,10 +1848,39 @@ def small_endgames(ctx, n):
             out[fen] = 'mate-in-3'
     return out
 
+def heavy_mate_positions(ctx, n):
+    """mate in one among many moves: two queens and two rooks (sometimes a minor piece) against king and pawns, more than
+    40 legal moves, for either colour (late quiet moves are where reductions bite)"""
+    rng = random.Random(ctx.seed + 401)
+    out = {}
+    tries = 0
+    while len(out) < n and tries < 60 * n:
+        tries += 1
+        pieces = list(rng.choice(['KQQRRk', 'KQQRRkp', 'KQQRRBkpp', 'KQRRNkp', 'KQQRkpp']))
+        sqs = rng.sample(range(64), len(pieces))
+        b = ['1'] * 64
+        ok = True
+        for pc, sq in zip(pieces, sqs):
+            if pc == 'p' and (sq < 8 or sq >= 56): ok = False
+            b[sq] = pc
+        if not ok: continue
+        fen = board_to_rows(b) + ' w - - 0 1'
+        if rng.random() < 0.5: fen = color_mirror_fen(fen)
+        w = ctx.model.ask('oracle wf ' + fen + ' ; ')
+        if not w or not w[0].startswith('wf 1 nk 1'): continue
+        info = legal_info(ctx, fen)
+        if not info or info[3] != 'no' or len(info[0]) <= 40: continue
+        m = ctx.model.ask(f'oracle mate {fen} ; 1')
+        if len(m) >= 3 and m[0] == 'mateIn [1]':
+            out[fen] = 'mate-in-1'
+    return out
+
+
 def check_C11(ctx):
     consts_compare(ctx, ['MATE_VALUE', 'MATE_BOUND', 'INFINITY', 'MAX_PLY'])
     mp = mate_positions(ctx, 70 if ctx.quick else 1500)
     mp.update(small_endgames(ctx, 12 if ctx.quick else 300))
+    mp.update(heavy_mate_positions(ctx, 10 if ctx.quick else 300))
     for line in load_regressions('C11'):
         mp[line] = 'regression'
     for fen, kind in mp.items():
